@@ -75,6 +75,7 @@ type Conn struct {
 	ReqWritten    int
 	RespConsumed  int
 	Produced      int // response bytes produced by the server on this connection
+	RespCount     int // response frames produced
 	ReadMark      int // bytes the reader had consumed when it last asked for more
 	Marks         [][2]uint64 // (ReadMark, scheduler step) history
 }
@@ -394,6 +395,7 @@ func (c *Conn) execOne() {
 	c.outq = append(c.outq, resp...)
 	c.frames = append(c.frames, len(resp))
 	c.Produced += len(resp)
+	c.RespCount++
 	for _, x := range e.C.Execs[nlog:] {
 		x.RespEnd = c.Produced
 	}
